@@ -296,7 +296,9 @@ def rt_case(rule, path, whole_only=False):
         e2, fenv = url_tables(route, fks, anon, kw)
         env += e2
         try:
-            u = route.url(*anon, **kw)
+            u = core.with_timeout(lambda: route.url(*anon, **kw))
+        except core.Hang:
+            raise
         except Exception as e:
             u = None
             impl += ' u=err:' + type(e).__name__
@@ -364,7 +366,9 @@ def url_case(rng, rule, path):
         anon, kw = perturb(rng, anon, kw)
     env, fenv = url_tables(route, fks, anon, kw)
     try:
-        impl = 'ok:' + hs(route.url(*anon, **kw))
+        impl = 'ok:' + hs(core.with_timeout(lambda: route.url(*anon, **kw)))
+    except core.Hang:
+        raise
     except Exception as e:
         impl = 'err:' + type(e).__name__
     kwt = ','.join('%s=%s' % (hs(k), G.enc_val(v)) for k, v in kw.items()) if kw else '~'
@@ -743,7 +747,11 @@ class C19(Check):
         return evals, findings
 
     def replay(self, data):
-        i = data['input']
+        i = data.get('input') or {}
+        if 'rule' not in i or 'path' not in i:
+            # a proof replay, or a disagreement on a direct url() call: show what was recorded
+            return {k: data.get(k) for k in ('kind', 'what', 'theorem', 'input', 'line', 'observed_impl', 'observed_model')
+                    if data.get(k) is not None}
         rule, path = i['rule'], i['path']
         ast = [tuple(s) for s in i['ast']] if i.get('ast') else ast_of_rule(rule)
         o = Oracle(rule, ast)
